@@ -9,7 +9,7 @@ import (
 )
 
 func TestVerif_C15(t *testing.T) {
-	res := kit.NewResult("one case = one operation of a TLC-generated history (RepoOps.tla: backup, forget, forget --prune, prune option classes, tag, rewrite, copy, repair index, repair snapshots, recover, key add/passwd/remove, upgrade to v2; commands optionally killed at their k-th mutating backend operation) executed with the real commands; after every operation the real check --read-data must report no error and every snapshot with known content must reload identically; distinct by (history, step); non-trivial when the operation was executed (precondition held)")
+	res := kit.NewResult("one case = one operation of a TLC-generated history (RepoOps.tla: backup, forget, forget --prune, prune option classes, tag, rewrite, copy, repair index, repair snapshots, key add/passwd/remove, upgrade to v2; commands optionally killed at their k-th mutating backend operation) executed with the real commands; after every operation the real check --read-data must report no error and every snapshot with known content must reload identically; distinct by (history, step); non-trivial when the operation was executed (precondition held)")
 	tr := kit.NewNDJSON("trace.ndjson")
 	defer tr.Close()
 	hs := vLoadHistories(t)
